@@ -6,7 +6,7 @@ The HAPServer is the point of contact to and from the world.
 import asyncio
 import logging
 import time
-from typing import TYPE_CHECKING, Dict, Optional, Tuple
+from typing import TYPE_CHECKING, Any, Dict, Optional, Tuple
 
 from .hap_protocol import HAPServerProtocol
 from .util import callback
@@ -75,6 +75,14 @@ class HAPServer:
             hap_proto.close()
         self.server.close()
         self.connections.clear()
+
+    def discard_stale_event(
+        self, aid: int, iid: int, value: Any, client_addr: Tuple[str, int]
+    ) -> None:
+        """Drop the event queued for a client unless it carries the given value."""
+        hap_server_protocol = self.connections.get(client_addr)
+        if hap_server_protocol is not None:
+            hap_server_protocol.discard_stale_event(aid, iid, value)
 
     def push_event(
         self, data: bytes, client_addr: Tuple[str, int], immediate: bool = False
